@@ -358,6 +358,23 @@ def ioStep (s : St) (id : Nat) (inj : IoRes) : St × IoOut :=
           else ({ s with segs := s.segs ++ [(j.key, { size := j.size, data := 0 })],
                          jobs := setJobIo s.jobs id false }, .done false)
 
+/-- A purge request served by the main loop WHILE the writer thread of page-out job `id` is inside `Disk._page_out`,
+between writing the file and unlinking the segment (the only window of a disk job in which the server thread can
+interleave with an effect: attach and unlink are by name). If the segment cannot be attached the job fails before that
+window exists and nothing interleaves (= `ioStep`). -/
+def ioMidPurge (s : St) (id : Nat) (k : String) : St × IoOut :=
+  match findJob s.jobs id with
+  | none => (s, .noJob)
+  | some j =>
+    if j.io.isSome || j.kind != .out then (s, .noJob) else
+    match find? s.segs j.key with
+    | none => ({ s with jobs := setJobIo s.jobs id false }, .done false)
+    | some g =>
+      let s1 := purge { s with files := put s.files j.key g } k
+      match find? s1.segs j.key with
+      | some _ => ({ s1 with segs := erase s1.segs j.key, jobs := setJobIo s1.jobs id true }, .done true)
+      | none => ({ s1 with jobs := setJobIo s1.jobs id false }, .done false)
+
 /-- `ds.status = st` inside a callback: acts on the captured object -/
 def setStatusIfSame (ds : List (String × Dataset)) (k : String) (gen : Nat) (st : Status) : List (String × Dataset) :=
   match find? ds k with
